@@ -121,11 +121,32 @@ func (k KnownFile) match(prop, sig string) *KnownFinding {
 		if f.Signature == sig {
 			return f
 		}
-		if strings.HasSuffix(f.Signature, "*") && strings.HasPrefix(sig, strings.TrimSuffix(f.Signature, "*")) {
+		if strings.Contains(f.Signature, "*") && wildMatch(f.Signature, sig) {
 			return f
 		}
 	}
 	return nil
+}
+
+// wildMatch matches s against a pattern in which '*' stands for any (possibly empty) substring.
+func wildMatch(pat, s string) bool {
+	parts := strings.Split(pat, "*")
+	if !strings.HasPrefix(s, parts[0]) {
+		return false
+	}
+	s = s[len(parts[0]):]
+	for i := 1; i < len(parts); i++ {
+		p := parts[i]
+		if i == len(parts)-1 {
+			return strings.HasSuffix(s, p)
+		}
+		j := strings.Index(s, p)
+		if j < 0 {
+			return false
+		}
+		s = s[j+len(p):]
+	}
+	return true
 }
 
 func main() {
@@ -486,6 +507,14 @@ func replayOnce(rs *RunSpec, trace []string) (sigs []string, log []string, err e
 		}
 	}
 	for i, name := range trace {
+		if name == "<query>" {
+			vs, _ := queryState(e.rig, e.Sc, s)
+			for _, vi := range vs {
+				sigs = append(sigs, vi.Sig)
+				log = append(log, "    !! "+vi.Sig+" :: "+vi.Detail)
+			}
+			break
+		}
 		if name == "<export>" {
 			fresh := e.rig.Genesis(e.Sc.Params, e.Sc.Funds, e.Sc.Extra)
 			r := exportPoint(e.rig, e.Sc, s, fresh)
